@@ -160,6 +160,7 @@ SPECS['C16'] = {
 
 TLSSRC = ['harness/venv.c']
 PBWRAP = ['-Wl,--wrap=sm3_pbkdf2', '-lpthread', '-ldl', '-lm']
+PGWRAP = ['-Wl,--wrap=sm3_pbkdf2', '-Wl,--wrap=sm4_gcm_encrypt', '-lpthread', '-ldl', '-lm']
 GCMWRAP2 = ['-Wl,--wrap=sm4_gcm_encrypt', '-lpthread', '-ldl', '-lm']
 GCMWRAP = ['-Wl,--wrap=sm4_gcm_encrypt', '-lcrypto', '-lpthread', '-ldl', '-lm']
 
@@ -172,10 +173,12 @@ SPECS['C06'] = {
     'bound': {'quick': '1 mutation, offsets thinned (step 3) for seeds > 2500 bytes', 'thorough': '1 mutation at every offset'},
     'assumptions': ['two simultaneous mutations out of scope', 'file / socket plumbing of the command-line tools not covered'],
     'quick': [J('c06a', 'asan', srcs=TLSSRC, libs=PBWRAP, deadline=150), J('c06a', 'msan', srcs=TLSSRC, libs=PBWRAP, deadline=150),
+              J('c06c', 'asan', srcs=TLSSRC, libs=PGWRAP, gen='vgen_c06c', deadline=150), J('c06c', 'msan', srcs=TLSSRC, libs=PGWRAP, gen='vgen_c06c', deadline=150, env={'C06C_HEAD': '4'}),
               J('c06b', 'fast', srcs=TLSSRC, libs=GCMWRAP, deadline=150, env={'C06B_STEP': '3', 'C06B_DENSE': '160', 'C06B_SUBS': '0x1ff'}),
               J('c06b', 'asan', srcs=TLSSRC, libs=GCMWRAP, deadline=150, env={'C06B_STEP': '32', 'C06B_DENSE': '96', 'C06B_SUBS': '0xc9'}),
               J('c06b', 'msan', srcs=TLSSRC, libs=GCMWRAP2, deadline=150, env={'C06B_STEP': '64', 'C06B_DENSE': '160', 'C06B_SUBS': '0x81'})],
     'thorough': [J('c06a', 'asan', srcs=TLSSRC, libs=PBWRAP, deadline=1500), J('c06a', 'msan', srcs=TLSSRC, libs=PBWRAP, deadline=1500),
+              J('c06c', 'asan', srcs=TLSSRC, libs=PGWRAP, gen='vgen_c06c', deadline=1500, env={'C06C_HEAD': '24'}), J('c06c', 'msan', srcs=TLSSRC, libs=PGWRAP, gen='vgen_c06c', deadline=1500, env={'C06C_HEAD': '12'}),
               J('c06b', 'fast', srcs=TLSSRC, libs=GCMWRAP, deadline=1500, env={'C06B_STEP': '1', 'C06B_DENSE': '160', 'C06B_SUBS': '0x1ff'}),
               J('c06b', 'asan', srcs=TLSSRC, libs=GCMWRAP, deadline=1500, env={'C06B_STEP': '2', 'C06B_DENSE': '160', 'C06B_SUBS': '0x1ff'}),
               J('c06b', 'msan', srcs=TLSSRC, libs=GCMWRAP2, deadline=1500, env={'C06B_STEP': '4', 'C06B_DENSE': '160', 'C06B_SUBS': '0x1ff'})],
